@@ -13,9 +13,9 @@ SPEC = {'id': 'C25',
                    'C25_batch_all_or_nothing',
                    'C25_audit',
                    'C25_kind_table',
-                   'C25_read_batch_pure'],
+                   'C25_read_batch_pure', 'C25_rename_audit_dir'],
  'partial_theorems': [],
- 'counterexamples': [],
+ 'counterexamples': ['C25_rename_audit_dir_counterexample'],
  'level': 'proof',
  'level_text': 'Machine-checked (Lean 4): the exec_mut loop (one transaction around the whole batch, '
                'result-reference injection, audit vector) is all-or-nothing and produces exactly the '
